@@ -1074,7 +1074,19 @@ def _default_tags(model, rep):
         def known(e):
             if isinstance(e, ast.Call) and src(e.func) in (
                     "self.params", "self.param"):
-                return ("inv", 1)       # cell sizes
+                # params() is the *longest* edge of each cell: a tolerance
+                # derived from it exceeds the short side of an anisotropic
+                # cell (boundary-layer mesh: 'bottom' also gets the lowest
+                # facets of the left and right sides)
+                return ("bad", "the tolerance is derived from params(), the "
+                               "longest edge of each cell, which says "
+                               "nothing about the short side of an "
+                               "anisotropic cell")
+            if isinstance(e, ast.Attribute) and src(e.value) == "self" and \
+                    e.attr in ("facets", "edges", "t", "t2f"):
+                return ("inv", 0)       # index tables
+            if isinstance(e, ast.Call) and src(e.func) == "self.dim":
+                return ("inv", 0)
             return None
         v = make_evaluator(defs, position, known)(lam.body)
         cons = f"Mesh._build_default_tags:predicate[{k}]:invariant"
@@ -1134,8 +1146,13 @@ MUTANTS = [
       "                                                             dmin,\n"),
      "C07-R4"),
     ("default side tags with an absolute tolerance of fixed size",
-     (_M, "        atol = np.min(self.params()) / 1e2\n",
+     (_M, "        atol = np.min(np.linalg.norm(np.diff(self.p[:, ed], "
+      "axis=1),\n                                     axis=0)) / 1e2\n",
       "        atol = 1e-8\n"), "C07-R4"),
+    ("default side tags with a tolerance from the longest cell edge",
+     (_M, "        atol = np.min(np.linalg.norm(np.diff(self.p[:, ed], "
+      "axis=1),\n                                     axis=0)) / 1e2\n",
+      "        atol = np.min(self.params()) / 1e2\n"), "C07-R4"),
     ("facet selector accepts Python integers only",
      (_M, "        if isinstance(facets, (int, np.integer)):",
       "        if isinstance(facets, int):"), "C07-R4"),
@@ -1273,8 +1290,8 @@ TWINS = [
      (_M, "            w[i] = (f[i] != f[:i]).all(axis=0)",
       "            w[i] = (f[:i] != f[i]).all(axis=0)")),
     ("default side tags with a tolerance of a thousandth of the cell size",
-     (_M, "        atol = np.min(self.params()) / 1e2\n",
-      "        atol = np.min(self.params()) / 1e3\n")),
+     (_M, "                                     axis=0)) / 1e2\n",
+      "                                     axis=0)) / 1e3\n")),
     ("facet selector tests the numeric ABC",
      (_M, "        if isinstance(facets, (int, np.integer)):",
       "        if isinstance(facets, (int, np.integer, np.int64)):")),
